@@ -1,5 +1,6 @@
 """C02 — noise-free ciphertext operations: operands of different ranks / limb counts, zero-fill of unused columns, in-place twins (thin claim)."""
 from . import facts, wr
+from .cfg import CFG, Flow
 from .c11 import wr1, wr2, col1
 
 C02_FILES = ("reference/vec_znx/add.rs", "reference/vec_znx/sub.rs", "reference/vec_znx/rotate.rs", "reference/vec_znx/shift.rs", "reference/vec_znx/normalize.rs",
@@ -60,6 +61,53 @@ def sib1(p, res):
     return n
 
 
+def col3(p, res):
+    """limb-wise two-operand operations: an operation that hands the limbs of a GLWE operand to a non-normalising vec_znx kernel writing another GLWE object treats limb j of both as
+    the same power of the radix; it has to compare the two radices (the add / sub / shift family asserts `res.base2k() == a.base2k()`), otherwise limbs are moved between radices raw"""
+    T = ("to_ref", "to_mut", "deref", "deref_mut", "borrow", "as_ref", "as_mut", "into", "from", "clone", "data", "data_mut")
+    n = 0
+    for f in sorted(p.lib_fns(), key=lambda x: x.uid):
+        if not (f.uid.startswith("poulpy_core::operations::") or f.uid.startswith("poulpy_core::api::operations")) or f.kind == "Closure" or not f.blocks:
+            continue
+        objs = [l for l in range(2, f.argc + 1) if f.local_ty(l).get("r") and "Scratch" not in f.local_ty(l)["s"] and f.local_ty(l)["s"].lstrip("&mut ").strip() not in ("usize", "i64")]
+        if len(objs) < 2:
+            continue
+        hal = [(f.callee_def(t) or {}).get("n", "") for bi, t in f.calls() if (f.callee_def(t) or {}).get("p", "").startswith("poulpy_hal::api::")]
+        hal = [x for x in hal if x.startswith("vec_znx")]
+        if not hal or any("normalize" in x or "big" in x or "dft" in x for x in hal):
+            continue
+        # kernels that read one object and write another (not zero / in-place only)
+        if not any(not x.endswith("_zero") and x != "vec_znx_zero" for x in hal):
+            continue
+        flow = Flow(f, transparent=T)
+        b2k = {}
+        for bi, t in f.calls():
+            if (f.callee_def(t) or {}).get("n") == "base2k" and t["a"]:
+                for r in flow.op_roots(t["a"][0]):
+                    if r[0] == "param":
+                        b2k.setdefault(bi, set()).add(r[1])
+        cmp = False
+        for bi, t in f.calls():
+            if (f.callee_def(t) or {}).get("n") in ("eq", "ne") and len(t["a"]) == 2:
+                sides = []
+                for a in t["a"]:
+                    ps = set()
+                    for r in flow.op_roots(a):
+                        if r[0] == "call" and r[1] in b2k:
+                            ps |= b2k[r[1]]
+                    sides.append(ps)
+                if sides[0] and sides[1] and sides[0] != sides[1]:
+                    cmp = True
+        n += 1
+        if cmp:
+            res.ok("COL-3", {"op": f.pretty, "kernels": sorted(set(hal))[:3]} if n % 5 == 1 else None)
+        else:
+            res.bad("COL-3", f.pretty, "radix-not-compared",
+                    "%s moves limbs between two objects with %s and never compares their base2k: with operands of different radix the limbs are copied raw and the phase of the result is "
+                    "not the operation applied to the phase of the operand (the add / sub / shift family asserts equality)" % (f.pretty, "/".join(sorted(set(hal))[:3])), site=f.where())
+    return n
+
+
 def run(res, tier):
     res.level = "other"
     res.explanation = ("Only the shape clause of C02 is decided: for the noise-free GLWE operations every column 0..rank of the result is written by a HAL call on every path "
@@ -91,6 +139,9 @@ def run(res, tier):
         res.floor("WR-2", "C02 shape functions with column accessors", n2, 20)
         ns = sib1(p, res)
         res.floor("SIB-1", "assign/out-of-place pairs", ns, 5)
+        res.rule("COL-3", "limb-wise two-operand GLWE operations (non-normalising vec_znx kernels) compare the radices of the objects they move limbs between")
+        n3 = col3(p, res)
+        res.floor("COL-3", "limb-wise two-operand operations", n3, 14)
         from . import sign
         res.rule("SIGN-1", "in res = a - b a write from `b` alone negates, a write from `a` alone does not, a write from both is a subtraction with a before b (add family: no negation, both -> add)")
         ns = sign.check(p, res, "SIGN-1", ("poulpy_core::api::operations", "poulpy_core::operations", "poulpy_cpu_ref::reference::vec_znx"))
